@@ -13,6 +13,19 @@ PROOF_NOTE = ("Trusted: Lean 4.33 kernel + axioms propext/Classical.choice/Quot.
               "tables/constants (Strophe/Gen). ")
 
 CLAIMED = {
+    "C02": dict(
+        engine="conn", design="5.2",
+        technique="Lean 4 invariant proofs over every operation history of the connection-machine model, statements over the log of everything written to the wire (with the user's flags at write time and the server's offers at queue time as ghost data); tied to auth.c/conn.c by differential execution of scripted sessions on the real library + model-free transcript monitor",
+        text=("For EVERY history (all flag words the API accepts, all JIDs/passwords, all server behaviours incl. failed/refused "
+              "handshakes, SASL failures forcing fallback, missing/duplicated starttls, reconnect cycles with flag changes): "
+              "mandatory_tls_gate (an element carrying authentication data is written only through an established TLS session "
+              "when MANDATORY_TLS is set at the time of writing; also for the flag at queue time), never_starttls_when_disabled, "
+              "plain_only_if_nothing_stronger (PLAIN only if no SCRAM-*/DIGEST-MD5, and with a client certificate no EXTERNAL, "
+              "was offered on that connection), legacy_only_if_enabled (jabber:iq:auth only for client connections with "
+              "LEGACY_AUTH, at queue and at write time), set_flags_table (complete decision table of xmpp_conn_set_flags over "
+              "all 256 words and all states, accepted flags read back), tls_failed_never_secured. Seven defects found through "
+              "this property's statements/monitor and repaired."),
+        note=PROOF_NOTE + "The TLS handshake result is an input of the model (OpenSSL is scripted: ok / fail / context allocation failure); certificate validation is C08's subject. SCRAM/DIGEST response contents are C07's."),
     "C13": dict(
         engine="conn", design="5.13",
         technique="Lean 4 invariant proofs over every operation history of the connection-machine model (Model/Conn.lean: event loop, handlers, timed handlers, negotiation, SM, API calls), tied to conn.c/auth.c/event.c/handler.c by differential execution of the same sessions on the real library (scripted socket/TLS, real parser) + model-free transcript monitors",
